@@ -973,7 +973,18 @@ var proxyLanes = []lane{
 			size = 100000
 		}
 		b, _ := protojson.Marshal(mkChunk(id, 8, prf(id+"/8", size)))
-		resp := wire.Serve(e.pmux, wire.NewRequest("POST", "/p1/echo", "", http.Header{"Content-Type": {"application/json"}}, slowBody(b, lr), int64(len(b))))
+		hdr := http.Header{"Content-Type": {"application/json"}}
+		// headers an ordinary HTTP/1.1 client or an intermediary adds
+		switch lr.Intn(4) {
+		case 0:
+			hdr["Connection"] = []string{"keep-alive"}
+		case 1:
+			hdr["Connection"] = []string{"keep-alive"}
+			hdr["Keep-Alive"] = []string{"timeout=5, max=100"}
+		case 2:
+			hdr["Proxy-Connection"] = []string{"keep-alive"}
+		}
+		resp := wire.Serve(e.pmux, wire.NewRequest("POST", "/p1/echo", "", hdr, slowBody(b, lr), int64(len(b))))
 		if resp.Wedged {
 			return "WEDGED"
 		}
